@@ -73,6 +73,12 @@ class Real(Type):
         self.max_value = float(max_value)
 
     def rand(self):
+        if math.isinf(self.max_value - self.min_value):
+            # the width overflows for very wide (but finite) bounds, and
+            # random.uniform would return inf or nan; interpolate instead
+            r = random.random()
+            return self.min_value * (1.0 - r) + self.max_value * r
+
         return random.uniform(self.min_value, self.max_value)
 
     def __str__(self):
